@@ -110,6 +110,22 @@ def run(ctx, host=None):
     # ---------------------------------------------------------------- R1
     cont = prog.cls('container:Container')
     nsite = 0
+    # per-pack accumulators (`defaultdict(list)`) are only ever grown element-wise: a batch, a page or the other lookup strategy must never replace what an
+    # earlier one found for the same pack (dict.update / item assignment keep only the last group per key)
+    for q in SITES:
+        fn0 = prog.fn(q)
+        accs = {n.targets[0].id for n in walk_local(fn0.node) if isinstance(n, ast.Assign) and len(n.targets) == 1 and isinstance(n.targets[0], ast.Name)
+                and isinstance(n.value, ast.Call) and norm(n.value.func).split('.')[-1] == 'defaultdict' and n.value.args and norm(n.value.args[0]) in ('list', 'set')}
+        for n in walk_local(fn0.node):
+            w = None
+            if isinstance(n, ast.Call) and isinstance(n.func, ast.Attribute) and isinstance(n.func.value, ast.Name) and n.func.value.id in accs and n.func.attr in ('update', 'setdefault', '__setitem__'):
+                w = n
+            elif isinstance(n, ast.Assign) and any(isinstance(t, ast.Subscript) and isinstance(t.value, ast.Name) and t.value.id in accs for t in n.targets):
+                w = n
+            if w is not None:
+                chk.bad(R1, q, norm(w)[:100], 'a per-pack accumulator is filled by replacing whole entries (dict.update / item assignment) instead of appending rows: when the rows of one pack arrive in '
+                        'more than one group (several IN batches, several pages) only the last group survives, so objects that single-key calls find are reported missing by the bulk call',
+                        where=f'{fn0.module.relpath}:{w.lineno}')
     seen_fns = set()
     for q in SITES:
         fn0 = prog.fn(q)
@@ -377,10 +393,13 @@ def run(ctx, host=None):
     from .common import Summaries
     key_views_funnel_only(ctx, chk, R2, Summaries(ctx))
     # ---------------------------------------------------------------- R7 (one-shot iterables)
-    R7 = chk.rule('C16.R7', 'no function of the package consumes a one-shot iterable (generator) more than once: the result must not depend on being the first key / first pass', 1)
+    R7 = chk.rule('C16.R7', 'no function of the package consumes a one-shot iterable (generator) more than once or resizes a collection while a loop iterates it: the result must not depend on being the first key / first batch', 2)
     from .common import one_shot_reuse
     nv = one_shot_reuse(ctx, chk, R7, [f for f in prog.all_functions() if not isinstance(f.node, ast.Lambda)], label='bulk operation')
     chk.require(nv >= 3, f'expected >= 3 locals bound to one-shot iterables in the package, found {nv}')
+    from .common import mutation_during_iteration
+    nl = mutation_during_iteration(ctx, chk, R7, [f for f in prog.all_functions() if not isinstance(f.node, ast.Lambda)])
+    chk.require(nl >= 20, f'expected >= 20 for-loops over named collections in the package, found {nl}')
 
     # importing is one of the bulk operations of this property: its rules (C14) are hosted
     if host is None:
